@@ -4,28 +4,29 @@ import Cqos.Facts.Defs
   goroutines or called by the user (`main`, `loop`, `loopUntimeouted`, `transfer`, the handlers
   of the simplified disciplines, `Stop`, `GracefulStop`, `Release`, `AddInput`, `RemoveInput`):
   the steppers call the functions *inside* them one at a time and the step machines of
-  Cqos/Sched.lean, Join.lean, Limit.lean encode how these glue functions compose them.  The
-  table `callseq` (regenerated from /repo on every run) holds, for each of them, the calls made
-  through the receiver (with their argument text), channel operations, `time.*` calls and the
-  control skeleton, in source order; the theorems below pin it to the composition the machines
-  assume.  A change of the glue (a reordered call, another argument, an extra branch) breaks
-  the obligation of the properties that rely on that composition; the black-box scenarios then
-  look for a failing input.
+  Cqos/Sched.lean, Join.lean, Limit.lean, Simple.lean, SimpleV1.lean encode how these glue
+  functions compose them.  The table `callseq` (regenerated from /repo on every run) holds, for
+  each of them, the calls made through the receiver (with their argument text), channel
+  operations, `time.*` calls and the control skeleton, in source order, with local variables
+  renamed `$1, $2, …` in order of first appearance; the theorems below pin it to the
+  composition the machines assume.  A change of the glue (a reordered call, another argument,
+  an extra branch) breaks the obligation of the properties that rely on that composition; the
+  black-box scenarios then look for a failing input.
 -/
 namespace Cqos.Facts
 
 def gluePrioV1Expected : List (String × String × String × List String) := [
   ("priority", "Discipline", "Stop", ["dsc.breaker.Break()"]),
   ("priority", "Discipline", "GracefulStop", ["dsc.graceful.Break()"]),
-  ("priority", "Discipline", "AddInput", ["dsc.inputAdds <- in"]),
-  ("priority", "Discipline", "RemoveInput", ["dsc.inputRmvs <- priority"]),
-  ("priority", "Discipline", "main", ["dsc.breaker.Complete()", "dsc.graceful.Complete()", "dsc.interrupter.Stop()", "if err != nil", "dsc.loop()", "dsc.err <- err"]),
-  ("priority", "Discipline", "loop", ["dsc.waitZeroActual()", "for", "<-dsc.breaker.IsBreaked()", "dsc.breaker.IsBreaked()", "return", "<-dsc.opts.Ctx.Done()", "dsc.opts.Ctx.Done()", "return", "<-dsc.inputAdds", "dsc.addInput(add.channel, add.priority)", "<-dsc.inputRmvs", "dsc.removeInput(priority)", "<-dsc.opts.Feedback", "dsc.decreaseActual(priority)", "dsc.clearActual()", "dsc.base()", "if err != nil", "return", "if processed == 0", "<-dsc.graceful.IsBreaked()", "dsc.graceful.IsBreaked()", "if dsc.isDrainedInputs()", "dsc.isDrainedInputs()", "return", "time.Sleep(defaultIdleDelay)", "dsc.getLimitedFeedback()"]),
+  ("priority", "Discipline", "AddInput", ["dsc.inputAdds <- $3"]),
+  ("priority", "Discipline", "RemoveInput", ["dsc.inputRmvs <- $1"]),
+  ("priority", "Discipline", "main", ["dsc.breaker.Complete()", "dsc.graceful.Complete()", "dsc.interrupter.Stop()", "if $1 != nil", "dsc.loop()", "dsc.err <- $1"]),
+  ("priority", "Discipline", "loop", ["dsc.waitZeroActual()", "for", "<-dsc.breaker.IsBreaked()", "dsc.breaker.IsBreaked()", "return", "<-dsc.opts.Ctx.Done()", "dsc.opts.Ctx.Done()", "return", "<-dsc.inputAdds", "dsc.addInput($1.channel, $1.priority)", "<-dsc.inputRmvs", "dsc.removeInput($2)", "<-dsc.opts.Feedback", "dsc.decreaseActual($2)", "dsc.clearActual()", "dsc.base()", "if $4 != nil", "return", "if $3 == 0", "<-dsc.graceful.IsBreaked()", "dsc.graceful.IsBreaked()", "if dsc.isDrainedInputs()", "dsc.isDrainedInputs()", "return", "time.Sleep(defaultIdleDelay)", "dsc.getLimitedFeedback()"]),
   ("priority", "Simple", "Stop", ["smpl.breaker.Break()"]),
   ("priority", "Simple", "GracefulStop", ["smpl.graceful.Break()"]),
-  ("priority", "Simple", "main", ["smpl.breaker.Complete()", "smpl.graceful.Complete()", "smpl.wg.Wait()", "smpl.priority.Stop()", "for", "smpl.wg.Add(1)", "smpl.handler(ctx)", "<-smpl.breaker.IsBreaked()", "smpl.breaker.IsBreaked()", "<-smpl.opts.Ctx.Done()", "smpl.opts.Ctx.Done()", "<-smpl.graceful.IsBreaked()", "smpl.graceful.IsBreaked()", "smpl.gracefulStop()", "<-smpl.priority.Err()", "smpl.priority.Err()", "smpl.err <- err"]),
-  ("priority", "Simple", "gracefulStop", ["func{", "smpl.priority.GracefulStop()", "<-done", "return", "<-smpl.breaker.IsBreaked()", "smpl.breaker.IsBreaked()", "<-smpl.opts.Ctx.Done()", "smpl.opts.Ctx.Done()", "smpl.priority.Stop()", "<-done"]),
-  ("priority", "Simple", "handler", ["smpl.wg.Done()", "for", "<-ctx.Done()", "return", "<-smpl.output", "smpl.opts.Handle(ctx, prioritized.Item)", "<-ctx.Done()", "return", "smpl.feedback <- prioritized.Priority"])
+  ("priority", "Simple", "main", ["smpl.breaker.Complete()", "smpl.graceful.Complete()", "smpl.wg.Wait()", "smpl.priority.Stop()", "for", "smpl.wg.Add(1)", "smpl.handler($1)", "<-smpl.breaker.IsBreaked()", "smpl.breaker.IsBreaked()", "<-smpl.opts.Ctx.Done()", "smpl.opts.Ctx.Done()", "<-smpl.graceful.IsBreaked()", "smpl.graceful.IsBreaked()", "smpl.gracefulStop()", "<-smpl.priority.Err()", "smpl.priority.Err()", "smpl.err <- $3"]),
+  ("priority", "Simple", "gracefulStop", ["func{", "smpl.priority.GracefulStop()", "<-$1", "return", "<-smpl.breaker.IsBreaked()", "smpl.breaker.IsBreaked()", "<-smpl.opts.Ctx.Done()", "smpl.opts.Ctx.Done()", "smpl.priority.Stop()", "<-$1"]),
+  ("priority", "Simple", "handler", ["smpl.wg.Done()", "for", "<-$1.Done()", "return", "<-smpl.output", "smpl.opts.Handle($1, $2.Item)", "<-$1.Done()", "return", "smpl.feedback <- $2.Priority"])
 ]
 
 /-- v1 priority and Simple: the loop-top select, `base`, graceful exit test, `getLimitedFeedback`; Stop / GracefulStop = breaker; AddInput / RemoveInput = one send on the command channel; Simple main / handler / gracefulStop -/
